@@ -600,6 +600,11 @@ def _symbolic_loop(ex, s, fr, var, start, stop, step):
   else:
     raise Unsupported("loop dependence analysis did not stabilise")
 
+  # record how the thread can leave this loop early (used by the FLOW schema: a thread that serves
+  # several worlds in one loop must not stop serving them because of one world's data)
+  if getattr(fr.info, "kind", "") == "kernel":
+    ex.__dict__.setdefault("loop_exits", []).append((fr.info.key, s.lineno, env_end.get("$ret", False), env_end.get("$brk", False)))
+
   # invariants: initiation + consecution obligations
   if invs:
     fr.env = env0
